@@ -262,6 +262,51 @@ func main() {
 				CoqModel: coqModel(in), Trivial: len(in.Dict) == 0 || len(in.Layout.Steps)+len(in.Layout.Inspect) == 0})
 		}
 		w.Close()
+	case "genhex":
+		// <out.in> <out.impl> <n>: string-level cases for the extracted model
+		n, _ := strconv.Atoi(os.Args[4])
+		fin, _ := os.Create(os.Args[2])
+		fout, _ := os.Create(os.Args[3])
+		r := lib.NewRng(lib.Seed() + 77)
+		hx := func(s string) string {
+			if s == "" {
+				return "-"
+			}
+			return fmt.Sprintf("%x", s)
+		}
+		for i := 0; i < n; i++ {
+			rr := r.Fork()
+			nd := rr.Range(1, 4)
+			dict := map[string]string{}
+			var names []string
+			for len(names) < nd {
+				name := rr.Pick(goodNames)
+				if _, ok := dict[name]; ok {
+					continue
+				}
+				names = append(names, name)
+				if rr.Chance(1, 3) {
+					dict[name] = "{" + rr.Pick(goodNames) + "}"
+				} else {
+					dict[name] = rr.Str("XY{}", 0, 3)
+				}
+			}
+			s := genText(rr, names)
+			l := intoto.Layout{Steps: []intoto.Step{{ExpectedCommand: []string{s}}}}
+			out, err := intoto.SubstituteParameters(l, dict)
+			line := hx(s)
+			for _, nm := range names {
+				line += " " + hx(nm) + " " + hx(dict[nm])
+			}
+			fmt.Fprintln(fin, line)
+			if err != nil {
+				fmt.Fprintln(fout, "ERR")
+			} else {
+				fmt.Fprintln(fout, hx(out.Steps[0].ExpectedCommand[0]))
+			}
+		}
+		fin.Close()
+		fout.Close()
 	case "replay":
 		b, err := os.ReadFile(os.Args[2])
 		if err != nil {
